@@ -473,6 +473,9 @@ func execPQ(c *pqCase) []string {
 	}
 	lines = append(lines, "op new => ok")
 	idx := p.index()
+	// search objects are executed at once, at once and again after the next Train / Add / Remove /
+	// Flush, or only after it (rexec.go); the search line is emitted where the Execute happens
+	var rex rexQueue
 	for _, cmd := range c.Cmds {
 		cmd := cmd
 		switch cmd.Op {
@@ -495,6 +498,7 @@ func execPQ(c *pqCase) []string {
 				return "ok " + p.oracle()
 			})
 			lines = append(lines, fmt.Sprintf("op train %d %d => %s", cmd.N, dimsOK, out))
+			rex.run()
 		case "add":
 			raw := core.FromBits(cmd.Vec)
 			arg := append([]float32(nil), raw...)
@@ -509,12 +513,15 @@ func execPQ(c *pqCase) []string {
 				return fmt.Sprintf("ok %d %s", l, codeHex(code))
 			})
 			lines = append(lines, fmt.Sprintf("op add %d %s => %s", cmd.ID, core.VecHex(raw), out))
+			rex.run()
 		case "remove":
 			out := safely(func() string { return vecErrOut(idx.Remove(*comet.NewVectorNodeWithID(cmd.ID, nil))) })
 			lines = append(lines, fmt.Sprintf("op remove %d => %s", cmd.ID, out))
+			rex.run()
 		case "flush":
 			out := safely(func() string { return vecErrOut(idx.Flush()) })
 			lines = append(lines, "op flush => "+out)
+			rex.run()
 		case "state":
 			lines = append(lines, p.stateLine())
 		case "search":
@@ -542,12 +549,23 @@ func execPQ(c *pqCase) []string {
 				_ = probe
 			}
 			kTok, aggTok, npTok := fmt.Sprint(cmd.K), cmd.Agg, fmt.Sprint(cmd.NProbes)
-			order := "-"
-			if len(qs) == 1 && len(cmd.Nodes) == 0 {
-				order = p.probeOrder(c.Metric, qs[0])
+			var qb strings.Builder
+			for _, q := range qs {
+				qb.WriteString(" " + core.VecHex(q))
 			}
-			out := safely(func() string {
-				s := idx.NewSearch().WithThreshold(thr)
+			// emit: the search line for one execution; the centroid ordering that travels along is
+			// computed from the centroids as they are at that moment
+			emit := func(out string) {
+				order := "-"
+				if len(qs) == 1 && len(cmd.Nodes) == 0 {
+					order = p.probeOrder(c.Metric, qs[0])
+				}
+				lines = append(lines, fmt.Sprintf("op search %s %s %s %s %s %s %s%s => %s", kTok, core.Hex32(thr),
+					core.IDs(cmd.Filter), aggTok, npTok, order, core.IDs(cmd.Nodes), qb.String(), out))
+			}
+			var s comet.VectorSearch
+			if built := safely(func() string {
+				s = idx.NewSearch().WithThreshold(thr)
 				if len(qs) > 0 {
 					cp := make([][]float32, len(qs))
 					for i := range qs {
@@ -576,20 +594,23 @@ func execPQ(c *pqCase) []string {
 				if len(cmd.Filter) > 0 {
 					s = s.WithDocumentIDs(cmd.Filter...)
 				}
-				res, err := s.Execute()
-				if err != nil {
-					return "err " + vecErr(err)
-				}
-				return hitsLine(res)
-			})
-			var qb strings.Builder
-			for _, q := range qs {
-				qb.WriteString(" " + core.VecHex(q))
+				return ""
+			}); built != "" {
+				emit(built) // building the search object panicked
+				continue
 			}
-			lines = append(lines, fmt.Sprintf("op search %s %s %s %s %s %s %s%s => %s", kTok, core.Hex32(thr),
-				core.IDs(cmd.Filter), aggTok, npTok, order, core.IDs(cmd.Nodes), qb.String(), out))
+			rex.next(func() {
+				emit(safely(func() string {
+					res, err := s.Execute()
+					if err != nil {
+						return "err " + vecErr(err)
+					}
+					return hitsLine(res)
+				}))
+			})
 		}
 	}
+	rex.run()
 	return append(lines, "end")
 }
 
